@@ -27,7 +27,7 @@ STRENGTHENED = {
     "C04-non-lifetime": "one of the two C04 round-2 changes was missed at first; C04 gained the ICMP-error and mid-lifetime clock-jump events",
     "C05-block1-final-ack-more": "missed at first; the server misbehaviour grid (b1-more-on-final, b1-continue-on-final) moved into the quick tier for 2, 4 and 5 blocks",
     "C05-block2-etag-vanishes": "missed at first; gained the b2-etag-dropped misbehaviour",
-    "C07-error-fanout-last-only": "missed at first; C07 gained two observations to one server under a transport error",
+    "C07-error-fanout-last-only": "C07 gained a dedicated family: two observations to one server under a transport error",
     "C07-serial-half-boundary": "caught once the Block2 notification family and the 2^23 boundary numbers were in the alphabet",
     "C08-last-flag-lost-on-coalesced-trigger": "missed at first; the model's 'last' became sticky across coalesced triggers",
     "C08-rst-releases-backlogged-notification": "missed at first; registration end is now indexed before the event that causes it",
